@@ -104,4 +104,80 @@ theorem first_row_from_leader (l : Line K) (p : Nat) :
 example (r : Reg ℚ) (hN : 0 < r.stage) (hg : 0 ≤ r.gap) : r.blowTime 0 0 = 0 ∧ r.blowTime 0 1 ≠ 0 := by
   simp [Reg.blowTime, C11.blow_index, Reg.line]
 
+/-! ### Hold-ups of earlier touches (the waiting rhythm's `delay`) do not move the pull-off -/
+
+theorem withReg_wait (w : World K) (f : (List (K × K × K) → K × K) → Reg K) :
+    (w.withReg f).rh.wait = w.rh.wait ∧ (w.withReg f).rh.stub = w.rh.stub ∧ (w.withReg f).bot = w.bot
+    ∧ (w.withReg f).now = w.now ∧ ∃ regf, (w.withReg f).rh.reg = f regf := by
+  unfold World.withReg
+  dsimp only
+  split <;> split <;> exact ⟨rfl, rfl, rfl, rfl, _, rfl⟩
+
+theorem look_to_with_hold_up (w : World K) (wt : K → K) (callTime : K) (stage n : Nat) (wr : WaitR K)
+    (hstub : w.rh.stub = none) (hw : w.rh.wait = some wr) :
+    let w' := w.applyOut wt callTime (.rInit stage false n)
+    w'.rh.reg.start = .fin (callTime + 3 - w'.delay) ∧ w'.delay = wr.delay ∧ w'.bot = w.bot
+      ∧ w'.rh.stub = none := by
+  intro w'
+  have h3 : (Num.ofQ lookToDuration : K) = 3 := anchor_is_look_to_plus_3
+  simp only [w', World.applyOut, hstub, hw]
+  generalize hw1 : ({ w with obs := _, rh := _, now := _ } : World K) = w1
+  obtain ⟨hwait, hst, hbot, -, regf, hreg⟩ := withReg_wait w1
+    (fun regf => w.rh.reg.initialiseLine regf stage false (callTime + Num.ofQ lookToDuration - wr.delay))
+  have hd : World.delay (w1.withReg (fun regf => w.rh.reg.initialiseLine regf stage false
+      (callTime + Num.ofQ lookToDuration - wr.delay))) = wr.delay := by
+    unfold World.delay; rw [hwait]; subst hw1; rfl
+  refine ⟨?_, hd, ?_, ?_⟩
+  · rw [hreg, hd, wheatley_leads, h3]
+  · rw [hbot]; subst hw1; rfl
+  · rw [hst]; subst hw1; rfl
+
+/-- The hold-up cancels: when the inner line starts at `T − delay` (inner frame), a wait for blow 0 that
+begins before `T` on the real clock sleeps until exactly `T` on the real clock. -/
+theorem wait_cancels_hold_up (v : World K) (T : K) (bell : Nat) (hand : Bool)
+    (hst : v.rh.stub = none) (hs : v.rh.reg.start = .fin (T - v.delay))
+    (hrow : v.bot.rowNumber = 0) (hplace : v.bot.place = 0) (hne : T - v.delay ≠ 0) (hnow : v.now < T) :
+    v.now + (v.beginWait bell false hand).2.1 = T := by
+  have hne' : Num.eqb (T - v.delay) (Num.ofNat 0 : K) = false := by simpa using hne
+  have key : ∀ u : World K, u.rh.reg = v.rh.reg → u.now = v.now → u.delay = v.delay → u.bot = v.bot →
+      u.rh.reg.waitPlan (u.now - u.delay) u.bot.rowNumber u.bot.place false = .sleep (T - v.now) := by
+    intro u hr hn hdl hbt
+    rw [hr, hn, hdl, hbt, hrow, hplace]
+    unfold Reg.waitPlan
+    simp only [hs, hne', Bool.false_eq_true, if_false]
+    have hbt0 : indexToRealTime (v.rh.reg.line (T - v.delay)) 0 0 = T - v.delay := by
+      simp [C11.real_time, Reg.line]
+    rw [hbt0]
+    have : v.now - v.delay < T - v.delay := by linarith
+    simp only [this, if_true]
+    congr 1; ring
+  unfold World.beginWait
+  simp only [hst]
+  cases hwq : v.rh.wait with
+  | none =>
+    have h1 := key v rfl rfl rfl rfl
+    simp only at h1 ⊢
+    simp only [h1]; ring
+  | some x =>
+
+    have h1 := key v rfl rfl rfl rfl
+    have hdl : ∀ u : World K, u.rh.wait = some { x with currentHand := hand } → u.delay = v.delay := by
+      intro u h; unfold World.delay; simp only [h, hwq]
+    rw [hdl _ rfl]
+    simp only [h1]; ring
+
+/-- **Wheatley leads, whatever happened before**: after Look To the wait for the first strike that
+begins before `Look To + 3 s` ends exactly at `Look To + 3 s` of the real clock, for every hold-up the
+waiting rhythm has accumulated in earlier touches. -/
+theorem first_strike_despite_hold_up (w : World K) (wt : K → K) (callTime : K) (stage n : Nat) (wr : WaitR K)
+    (bell : Nat) (hand : Bool)
+    (hstub : w.rh.stub = none) (hw : w.rh.wait = some wr)
+    (hrow : w.bot.rowNumber = 0) (hplace : w.bot.place = 0)
+    (hne : callTime + 3 - wr.delay ≠ 0)
+    (hnow : (w.applyOut wt callTime (.rInit stage false n)).now < callTime + 3) :
+    (w.applyOut wt callTime (.rInit stage false n)).now +
+      ((w.applyOut wt callTime (.rInit stage false n)).beginWait bell false hand).2.1 = callTime + 3 := by
+  obtain ⟨hs, hd, hb, hst⟩ := look_to_with_hold_up w wt callTime stage n wr hstub hw
+  exact wait_cancels_hold_up _ _ bell hand hst hs (by rw [hb]; exact hrow) (by rw [hb]; exact hplace)
+    (by rw [hd]; exact hne) hnow
 end Wheatley.C15
